@@ -3,6 +3,11 @@ NOT_APPLICABLE = {}
 TB = ("Trusted: Coq 8.16.1 kernel + vm_compute (no native_compute, no axioms: every property theorem prints 'Closed under the global context'); "
       "the hand-written Gallina model, tied to /repo only by the correspondence check of each run (sampled behaviours); the Go harness (generators, oracles) ")
 TEXTS = {
+ "C09": {
+  "text": "Theorems over the model of transaction.go/wired.go/base.go, generic in the CRDT kernel and instantiated for counter, map and list: at any point of any history (valid and invalid calls, committed and aborted transactions, remote operations) an aborted transaction leaves snapshot, next operation id, pending operations and checkpoint unchanged — via the invariant 'replaying rollbackOps on the rollback point reproduces the current state', proved for every event; a committed transaction is one contiguous unit headed by its length; a remote unit is applied entirely or, if truncated / zero / negative / over-counted, not at all. The model is replayed against real replicas (transactions with mixed valid/invalid calls, aborts after remote deliveries, malformed units) on every run; the oracle compares state, id, DUID and pending operations before/after every aborted transaction.",
+  "note": TB + "; Document transactions are covered by the generic theorem only once the document kernel is modelled; under-counted headers are indistinguishable from a shorter unit followed by stand-alone operations (stated in DESIGN.md).",
+  "technique": "Coq proof (replay invariant by induction over event sequences) + in-Coq differential replay + before/after oracle",
+ },
  "C01": {
   "text": "Theorems: counter — any two orders of the same operations give the same value; map — in every reachable state of the abstract replicated system (N replicas, one log, arbitrary interleaving of generate/push/deliver) replicas with the same applied operations agree on every key (value/tombstone/timestamp) and on Size, obtained from a datatype-independent theorem (executable permutations of duplicate-free operations agree) instantiated with the map kernel's commutation lemmas. The kernels are the executable model functions that the correspondence check replays, event by event, against 2..4 real replicas (views, sizes, results, emitted operations) on every run; an oracle compares real replicas whenever their applied sets coincide.",
   "note": TB + "; list and document instances of the convergence theorem are not yet proved (their correspondence and oracle run); the link from the concrete datatype wrapper to the abstract system's Gen step is by the local_eq_remote lemmas, not yet a full simulation proof.",
@@ -14,7 +19,7 @@ TEXTS = {
   "technique": "Coq proof (max-timestamp characterisation by induction over executable sequences) + in-Coq differential replay",
  },
  "C15": {
-  "text": "Theorems over the Gallina model of timestamp.go/operation_id.go: the node-table key is injective for all timestamps (unbounded), comparison is a strict total order over distinct operations for all clocks below the half-range wrap (and refuted beyond it by a machine-checked witness). The model is tied to the code on every run by evaluating the implementation's observed Compare/Hash-equality/Next/RollBack/SyncLamport results inside Coq, plus an exhaustive key-collision grid on the implementation.",
+  "text": "Theorems: over every history of a datatype (failed calls, aborted transactions, remote deliveries) the queued operations are numbered 1,2,3,... and each new local operation's lamport exceeds every operation applied before it (generic in the kernel, instantiated for map and list); and over the Gallina model of timestamp.go/operation_id.go: the node-table key is injective for all timestamps (unbounded), comparison is a strict total order over distinct operations for all clocks below the half-range wrap (and refuted beyond it by a machine-checked witness). The model is tied to the code on every run by evaluating the implementation's observed Compare/Hash-equality/Next/RollBack/SyncLamport results inside Coq, plus an exhaustive key-collision grid on the implementation.",
   "note": TB + "; clocks assumed < 2^63 / eras < 2^31.",
   "technique": "Coq proof (injectivity by separator splitting + decimal round trip; order by reduction to lexicographic N/string order) + in-Coq differential evaluation",
  },
